@@ -163,6 +163,11 @@ func (g *gsm7Decoder) Transform(dst, src []byte, atEOF bool) (nDst, nSrc int, er
 	if len(src) == 0 {
 		return 0, 0, nil
 	}
+	// A message is decoded as a whole: septets straddle octets, an escape pair may straddle any cut and the
+	// padding rule depends on the total length. Ask the caller for the rest instead of decoding a fragment.
+	if !atEOF {
+		return 0, 0, transform.ErrShortSrc
+	}
 
 	septets := src
 	if g.packed {
@@ -283,6 +288,11 @@ func (g *gsm7Encoder) Reset() {
 func (g *gsm7Encoder) Transform(dst, src []byte, atEOF bool) (nDst, nSrc int, err error) {
 	if len(src) == 0 {
 		return 0, 0, nil
+	}
+	// A message is encoded as a whole: a fragment may end inside a UTF-8 sequence, and packing (with its
+	// CR padding) depends on the total number of septets. Ask the caller for the rest.
+	if !atEOF {
+		return 0, 0, transform.ErrShortSrc
 	}
 
 	text := string(src) // work with []rune (a.k.a string) instead of []byte
